@@ -88,7 +88,7 @@ Section Exec.
 
   Let Hcs_decl : forall c, In c cs -> In c (names_of p).
   Proof.
-    pose proof Hcs as H0. unfold wf_classes in H0. apply andb_true_iff in H0 as [_ H]. rewrite forallb_forall in H.
+    pose proof Hcs as H0. unfold wf_classes in H0. repeat (apply andb_true_iff in H0 as [H0 ?]). rename H into Hf. pose proof Hf as H. rewrite forallb_forall in H.
     intros c Hc. specialize (H c Hc). destruct (find_decl p c) as [d|] eqn:E; [|discriminate].
     apply (find_decl_In p Hnames) in E as [E1 E2]. subst c. now apply in_map.
   Qed.
@@ -130,27 +130,27 @@ Proof.
 Qed.
 
 (* declared annotations (forward references at the leaves) resolve into the supported grammar, to the class they name *)
-Lemma resolve_wf p t : wf_ann t = true -> leaf_ok p t = true ->
-  exists rt, resolve p t = Ok rt /\ wf_ty rt = true /\ forall d, about rt d = about t d.
+Lemma resolve_wf p ns t : wf_ann t = true -> leaf_ok p t = true -> locals_in ns t = true ->
+  exists rt, resolve p ns t = Ok rt /\ wf_ty rt = true /\ forall d, about rt d = about t d.
 Proof.
-  intros W L.
-  destruct t as [b|c'|e|a|k a|a|n'|a|a|k v|o|]; try discriminate W;
+  unfold locals_in. intros W L Hl.
+  destruct t as [b|c'|e|a|k a|a|n'|a|a|k v|o| |n']; try discriminate W;
     try (eexists; split; [reflexivity|]; split; [exact W | reflexivity]);
-    try (unfold leaf_ok in L; cbn in L; cbn; unfold resolve_name;
+    try (unfold leaf_ok in L; cbn in L; cbn in Hl; cbn; try rewrite Hl; unfold resolve_name;
          destruct (find_decl p n') as [d'|]; try discriminate L; destruct (d_kind d');
          eexists; split; try reflexivity; split; reflexivity);
-    destruct a as [b|c'|e|a|k' a|a|n'|a|a|k' v|o|]; try discriminate W;
+    destruct a as [b|c'|e|a|k' a|a|n'|a|a|k' v|o| |n']; try discriminate W;
     try (eexists; split; [reflexivity|]; split; [exact W | reflexivity]);
-    unfold leaf_ok in L; cbn in L; cbn; unfold resolve_name;
+    unfold leaf_ok in L; cbn in L; cbn in Hl; cbn; try rewrite Hl; unfold resolve_name;
     destruct (find_decl p n') as [d'|]; try discriminate L; destruct (d_kind d');
     eexists; split; try reflexivity; split; reflexivity.
 Qed.
 
-Theorem classify_declared : forall p t d df, wf_ann t = true -> leaf_ok p t = true ->
-  exists rt, resolve p t = Ok rt /\
+Theorem classify_declared : forall p ns t d df, wf_ann t = true -> leaf_ok p t = true -> locals_in ns t = true ->
+  exists rt, resolve p ns t = Ok rt /\
     kinds_of {| resolved_type := rt; has_default := d; has_default_factory := df |} = Ok (spec_kind rt) /\
     forall c, about rt c = about t c.
 Proof.
-  intros p t d df W L. destruct (resolve_wf p t W L) as [rt [H1 [H2 H3]]].
+  intros p ns t d df W L Hl. destruct (resolve_wf p ns t W L Hl) as [rt [H1 [H2 H3]]].
   exists rt. split; auto. split; auto. now apply classify_ok.
 Qed.
